@@ -53,6 +53,8 @@ ASSUMPTIONS = [
     'append_link title= is ASCII without quote/backslash; ASCII download filenames exclude quote, '
     'backslash and controls (no escaping is documented)',
     'Content-Length is excluded from the emission comparison (the framework owns it; see C05)',
+    'http.cookies of the running Python (3.12) accepts control characters in cookie values and '
+    'octal-escapes them; newer interpreters that reject them would need the value alphabet narrowed',
 ]
 
 # ======================================================================== reference helpers
@@ -1005,7 +1007,7 @@ class Cookies(Suite):
     reserved name -> KeyError) must raise and emit nothing."""
 
     name = 'cookies'
-    budget = {'quick': 5000, 'thorough': 120000}
+    budget = {'quick': 4000, 'thorough': 120000}
 
     def strategy(self, tier):
         op = st.one_of(
@@ -1073,7 +1075,10 @@ class Cookies(Suite):
             exp = {s['name']: s['value'] for k, s in live}
             if got['cookies'] != exp:
                 bad = sorted(n for n in exp if got['cookies'].get(n) != exp[n])
-                raise Violation('cookie_roundtrip', '%s: Set-Cookie lines %r echoed as Cookie: %r -> req.cookies = %r, '
+                only_empty = (set(got['cookies']) == set(exp)
+                              and all(exp[n] == '' and got['cookies'][n] == '""' for n in bad))
+                raise Violation('cookie_roundtrip_empty_value' if only_empty else 'cookie_roundtrip',
+                                '%s: Set-Cookie lines %r echoed as Cookie: %r -> req.cookies = %r, '
                                 'expected %r (differs for %r)' % (driver, lines, header, got['cookies'], exp, bad))
             for n, v in exp.items():
                 if got['values'][n] != [v]:
@@ -1149,7 +1154,7 @@ class UriHelpers(Suite):
     filename and the plain filename fallback is ASCII."""
 
     name = 'uri_helpers'
-    budget = {'quick': 5000, 'thorough': 120000}
+    budget = {'quick': 4000, 'thorough': 120000}
 
     def strategy(self, tier):
         loc = st.builds(lambda k, v: {'kind': k, 'value': v}, st.sampled_from(['location', 'content_location']), _utext)
@@ -1237,8 +1242,11 @@ class UriHelpers(Suite):
 
 SUITES = [Histories(), Cookies(), UriHelpers()]
 
-# Predicates for the two morsel-reuse findings, should they be listed as `known` rather than fixed.
+# Narrow predicates (the violation kinds below are raised for exactly one input class each), used only
+# if the corresponding finding is listed as `known` in known_findings.jsonl instead of being fixed.
 KNOWN = {
+    # F18: an empty cookie value is emitted as k="" and read back as the two characters '""'
+    'F18': lambda suite_name, case, v: v.kind == 'cookie_roundtrip_empty_value',
     'C15-stale-cookie-attrs': lambda suite_name, case, v: v.kind == 'cookie_stale_attrs',
     'C15-unset-keeps-max-age': lambda suite_name, case, v: (
         v.kind == 'unset_cookie_not_expired' and 'Max-Age' in v.detail),
